@@ -432,7 +432,9 @@ func (p *c13Panic) Error() string { return p.msg }
 func (n *c13Node) apply(cmds []c13Cmd, firstIndex uint64) (res [][]byte, err error) {
 	batch := make([]multiraft.Command, len(cmds))
 	for i, c := range cmds {
-		batch[i] = multiraft.Command{SlotID: multiraft.SlotID(c.slot), HashSlot: c.hs, Index: firstIndex + uint64(i), Term: 1, Data: append([]byte(nil), c.data...)}
+		data := make([]byte, len(c.data)) // exact capacity: a decoder reading past the payload panics instead of seeing spare bytes
+		copy(data, c.data)
+		batch[i] = multiraft.Command{SlotID: multiraft.SlotID(c.slot), HashSlot: c.hs, Index: firstIndex + uint64(i), Term: 1, Data: data}
 	}
 	defer func() {
 		if p := recover(); p != nil {
